@@ -70,8 +70,47 @@ Definition entry_wfb (t : ty) : bool :=
   | _ => match t_path t with [] => true | _ => false end
   end.
 
+(** clause 8 of 3.1 in weakened form: the inner type of a Compact entry - after the one-level
+    [Cow] look-through of the resolver - is neither a tuple nor an array.  (A compact FIELD
+    renders its inner type with [parse_quote!( #inner )] into a [syn::TypePath], which panics
+    on [(..)] and [[..; n]].) *)
+Definition cow_target (r : registry) (t0 : ty) : option ty :=
+  match path_ident (t_path t0) with
+  | Some "Cow" =>
+      match t_params t0 with
+      | [] => None
+      | p0 :: _ =>
+          match tp_ty p0 with
+          | None => None
+          | Some inner => resolve r inner
+          end
+      end
+  | _ => Some t0
+  end.
+
+Definition tuple_or_array_def (d : typedef) : bool :=
+  match d with TDTuple _ | TDArray _ _ => true | _ => false end.
+
+Definition compact_inner_ok_at (r : registry) (t : ty) : bool :=
+  match t_def t with
+  | TDCompact e =>
+      match resolve r e with
+      | Some t0 =>
+          match cow_target r t0 with
+          | Some t' => negb (tuple_or_array_def (t_def t'))
+          | None => true
+          end
+      | None => true
+      end
+  | _ => true
+  end.
+
+Definition compact_inner_okb (r : registry) : bool :=
+  forallb (fun e => compact_inner_ok_at r (snd e)) r.
+
 Definition wf_regb (r : registry) : bool :=
-  ids_consistent r && closed_reg r && rank_ok r && forallb (fun e => entry_wfb (snd e)) r.
+  ids_consistent r && closed_reg r && rank_ok r && forallb (fun e => entry_wfb (snd e)) r &&
+  compact_inner_okb r.
 
 (** ** settings (3.2, the clauses generation depends on) *)
 Definition has_compact (r : registry) : bool :=
@@ -143,7 +182,8 @@ Definition settings_ok (r : registry) (s : settings) : Prop :=
 
 (** the class [C10_resolve_total] is stated on *)
 Definition resolvable (r : registry) (s : settings) (rank : N -> nat) : Prop :=
-  closed r /\ ranked r rank /\ entries_ok resolvable_entryb r /\ settings_ok r s.
+  closed r /\ ranked r rank /\ entries_ok resolvable_entryb r /\ settings_ok r s /\
+  entries_ok (compact_inner_ok_at r) r.
 
 (** the class [C10_total] is stated on: ids = positions in addition, and the
     identifier / field-list clauses on every entry *)
@@ -181,6 +221,26 @@ Fixpoint no256 (t : tpath) : bool :=
 
 Definition ir_no256 (ir : type_ir) : Prop :=
   forall f, In f (kind_fields (ti_kind ir)) -> no256 (fi_path f) = true.
+
+(** no 256-bit primitive and no compact field whose inner path is a tuple / an array:
+    exactly when [tp_tokens] is [Ok] (neither [unimplemented!] nor the [parse_quote!] panic) *)
+Definition tuple_or_array (t : tpath) : bool :=
+  match t with TTuple _ | TArray _ _ => true | _ => false end.
+
+Fixpoint tokenizable (t : tpath) : bool :=
+  match t with
+  | TParam _ => true
+  | TPath _ ps => forallb tokenizable ps
+  | TVec o => tokenizable o
+  | TArray _ o => tokenizable o
+  | TTuple es => forallb tokenizable es
+  | TPrim p => negb (is256 p)
+  | TCompact i f _ => tokenizable i && negb (f && tuple_or_array i)
+  | TBitVec o st _ => tokenizable o && tokenizable st
+  end.
+
+Definition ir_tokenizable (ir : type_ir) : Prop :=
+  forall f, In f (kind_fields (ti_kind ir)) -> tokenizable (fi_path f) = true.
 
 (** sub-paths of a path (reflexive) *)
 Fixpoint subpaths (t : tpath) : list tpath :=
